@@ -30,7 +30,10 @@ def main():
             cmd = [os.path.join(HERE, "check.py"), m["prop"], "--tier", "quick"]
             runs = a.runs or m.get("runs")
             if runs: cmd += ["--runs", str(runs)]
-            out = subprocess.run(cmd, capture_output=True, text=True, cwd=HERE, timeout=1200)
+            try:
+                out = subprocess.run(cmd + ["--wall", "90"], capture_output=True, text=True, cwd=HERE, timeout=400)
+            except subprocess.TimeoutExpired:
+                results.append((m["id"], m["prop"], "TIMEOUT")); continue
             caught = out.returncode == 1 and "VIOLATION property=%s" % m["prop"] in out.stdout
             sigs = [l.split(":")[1].strip() for l in out.stdout.splitlines() if l.startswith("violation:")]
             status = "caught" if caught else ("HARNESS-ERROR" if out.returncode == 2 else "MISSED")
